@@ -280,4 +280,19 @@ CHECKS = {
         assumptions=["server datagrams are hand-built from field values (v6) / built with the library encoder from harness-chosen fields (v4)"],
         exhaustive_note="all reaction tables with <= 2 servers and one reaction per phase (v4), all one/two-reaction SOLICIT tables (v6)",
     ),
+    "C14": dict(
+        title="Servers dispatch each valid datagram exactly once and survive bad ones",
+        stages=[dict(name="serve", race=True, shards=S16, timeout={"quick": 900, "thorough": 5400})],
+        race_is_violation=True,
+        rule="both servers (server4/server6.NewServer with WithConn(scripted PacketConn)) under the race detector: sequences of 0..200 datagrams mixing valid messages of every type (DHCPv6: every option type, relay nesting 0..4), "
+             "truncated, bad-cookie, End-less, undecodable, short-relay and empty datagrams, from senders with an address, with a nil address, with 0.0.0.0 (4- and 16-byte forms), zone-qualified link-local; handlers that return "
+             "at once, outlive the next k reads (k up to 20) or run until the end; the sequence ends with a scripted read error or Close() at a seeded position. Each valid datagram carries a unique nonce. "
+             "Shape = (server, stop kind, #datagrams, sequence of classes); non-trivial iff it mixes decodable and undecodable datagrams or a handler outlives a read.",
+        technique="offline conservation checker with unique ids over handler-invocation logs recorded behind a scripted PacketConn (entry/exit message snapshots vs an independent decoding of a pristine copy), under the Go race detector with a goroutine-leak probe",
+        level_text="Multiset of handler nonces = multiset of decodable datagrams read before the stop (each exactly once, none for undecodable ones); the handler's message equals the reference decoding of a pristine copy "
+                   "of the datagram at entry and still at exit (independent of later datagrams and of buffer reuse); peer = sender (DHCPv4: 255.255.255.255 with the sender's port when the sender has no address); Serve returns "
+                   "only after the scripted read error (with that error) or Close; no Serve goroutine survives; zero race reports.",
+        level_note="The scripted conn writes only into the buffer of the current ReadFrom call, like a socket, so buffer reuse is flagged only when a handler can observe it or the race detector sees it. Senders that are not *net.UDPAddr are outside the quantifier.",
+        assumptions=["datagrams in a gray zone of the reference decoders are not generated"],
+    ),
 }
